@@ -554,6 +554,8 @@ func init() {
 		}
 		arrRoots = append(arrRoots, parseAll([]string{`[[]]`, `[[],[]]`, `[[{"a":1}]]`, `[[{"a":2}]]`, `[[[{"a":1}]]]`, `[{"a":1},[{"a":1}]]`, `[{"a":1},[{"a":2}]]`, `[[{}],{}]`, `[{},{},{}]`, `[{"a":[{"b":1}]}]`, `[{"a":[{"b":2}]}]`})...)
 		runCreatePairs(ctx, "C03", false, arrRoots, arrRoots)
+		scaleObjs := scaleObjects()
+		runCreatePairs(ctx, "C03", false, scaleObjs, scaleObjs)
 	}, false)
 	registerMerge("C06", func(ctx *core.Ctx, tier string) {
 		ctx.Rep.Rule = "Equal(a,b) vs reference structural equality (numbers by literal; numerically-equal-but-differently-spelled pairs are DontCare) for all ordered pairs of V3 (quick) / V4 (thorough), each value also in reordered, whitespace-padded and \\u-escaped spellings; every JSON string escape (solidus, quote, backslash, b f n r t, uXXXX in both cases, surrogate pairs) in all spellings at the root, in arrays, as member value and as member name; " +
@@ -564,6 +566,7 @@ func init() {
 		}
 		vs = append(vs, parseAll([]string{`[{"a":1,"b":2}]`, `[{"a":1,"b":{"a":2,"b":null}},1]`, `{"a":[{"b":1,"a":{"b":2,"a":3}}]}`, `[[{"a":1,"b":2}],{"a":1,"b":2}]`})...)
 		runEqualPairs(ctx, "C06", false, vs, true)
+		runEqualPairs(ctx, "C06", false, scaleObjects(), true)
 		runEqualEscapes(ctx, "C06")
 		runEqualMalformed(ctx, "C06", tier)
 	}, false)
@@ -585,6 +588,8 @@ func init() {
 		}
 		lookDocs := parseAll([]string{`{}`, `{"a/b":1,"a~1b":2,"m~n":3,"m~0n":4}`, `{"a":{"a/b":1,"a~1b":2,"m~n":3,"m~0n":4}}`, `{"a~1b":{"x":1}}`})
 		runCompose(ctx, "C07", false, lookDocs, lookN, lookN)
+		so := scaleObjects()
+		runCompose(ctx, "C07", false, so[:3], so, so)
 	}, false)
 }
 
@@ -649,5 +654,11 @@ func init() {
 		ctx.Phase("compose", func() { runCompose(ctx, "C19", true, dedupe(docs), ps, p2s) })
 		eqExtra := parseAll([]string{`[{"a":1,"b":2}]`, `[{"a":1,"b":{"a":2,"b":null}},1]`, `{"a":[{"b":1,"a":{"b":2,"a":3}}]}`, `[[{"a":1,"b":2}],{"a":1,"b":2}]`})
 		ctx.Phase("equal", func() { runEqualPairs(ctx, "C19", true, append(containersOnly(v2), eqExtra...), true) })
+		ctx.Phase("scale", func() {
+			so := noFloatSpelling(scaleObjects())
+			runMergeEdges(ctx, "C19", true, so, so, mergeCfg{})
+			runCreatePairs(ctx, "C19", true, so, so)
+			runEqualPairs(ctx, "C19", true, so, true)
+		})
 	}, true)
 }
